@@ -692,10 +692,13 @@ def s7(ctx, taint, off):
                 ctx.bad('S7', key, 'arithmetic on untrusted data is carried out in %s but its exact value ranges over %s: it can wrap around, and a '
                         'size check or offset computed from it no longer bounds the access' % (ty, 'an unbounded range' if r is None else '[%s, %s]' % r), f, line=line)
         for nid, ev in sorted(a.all_events('usub'), key=lambda x: (x[1][4], x[0])):
-            _, x, y, ty, line = ev
+            _, x, y, ty, line = ev[:5]
             if not (is_tainted(a, x, tp) or is_tainted(a, y, tp)):
                 continue
             st = a.instate[nid]
+            if len(ev) > 5 and ev[5]:
+                from ..sym import State
+                st = State(st.env, st.facts | frozenset(ev[5]))
             key0 = 'S7:%s:-:%s' % (f['q'], T.show(a.arith('-', x, y), 2)[:50])
             occ[key0] = occ.get(key0, 0) + 1
             key = '%s#%d' % (key0, occ[key0])
